@@ -144,7 +144,12 @@ type group struct {
 }
 
 func (g group) String() string { return g.Role + "/" + g.Sel + "/" + g.State + "/" + g.Mech }
-func (g group) valid() bool    { return g.State == "valid" }
+func (g group) valid() bool    { return g.State == "valid" || g.away() }
+
+// away: the principal also holds its role on dbother and its session is bound to dbother when the right on dbown
+// is revoked / downgraded; afterwards the session tries to switch to dbown. The credentials stay legitimate for
+// dbother; on dbown they carry what is left of the right.
+func (g group) away() bool { return strings.HasSuffix(g.State, "-away") }
 
 // level: the right the principal's CURRENT CREDENTIALS legitimately carry on db (none for every invalid session).
 func (g group) level(db string, sysGrant bool) int {
@@ -167,6 +172,14 @@ func (g group) userLevel(db string, sysGrant bool) int {
 		return lvNone
 	case "downgraded":
 		rl = lvR
+	case "revoked-away", "downgraded-away":
+		switch {
+		case db == dbOther:
+			return rl
+		case db == dbOwn && g.State == "downgraded-away":
+			return lvR
+		}
+		return lvNone
 	}
 	switch {
 	case db == dbOwn:
@@ -178,6 +191,14 @@ func (g group) userLevel(db string, sysGrant bool) int {
 }
 
 func (g group) maxLevel(sysGrant bool) int { return g.level(dbOwn, sysGrant) }
+
+// curLevel: the right on the database the credentials are bound to (requests that name no database act on it).
+func (g group) curLevel(e *env) int {
+	if g.away() && e.sessDB != "" {
+		return g.level(e.sessDB, e.sysGrant)
+	}
+	return g.maxLevel(e.sysGrant)
+}
 
 func (g group) named() string {
 	switch g.Sel {
@@ -582,12 +603,14 @@ type env struct {
 	md       []string // principal's outgoing metadata
 	sessID   string
 	sessDB   string // database the credentials were acquired on ("" none)
-	n        int
-	hist     []cellRef
-	snap     map[string]string
-	acqNotes []string
-	stale    bool                // the credentials may have been altered by a breach: continue with new principals
-	created  map[string][]string // db -> collections / tables created by this group's requests (dropped at the end)
+
+	transitioned bool
+	n            int
+	hist         []cellRef
+	snap         map[string]string
+	acqNotes     []string
+	stale        bool                // the credentials may have been altered by a breach: continue with new principals
+	created      map[string][]string // db -> collections / tables created by this group's requests (dropped at the end)
 }
 
 var (
@@ -767,6 +790,9 @@ func newEnv(h *host, g group) *env {
 		if rl == lvNone {
 			_, err = e.cl.ChangePermission(a, &schema.ChangePermissionRequest{Action: schema.PermissionAction_REVOKE, Username: e.user, Database: dbOwn, Permission: 1})
 			must(err, "revoke for role none")
+		} else if g.away() {
+			_, err = e.cl.ChangePermission(a, &schema.ChangePermissionRequest{Action: schema.PermissionAction_GRANT, Username: e.user, Database: dbOther, Permission: p})
+			must(err, "grant principal on dbother")
 		} else if g.Sel == "system" {
 			// the role is also granted on systemdb as far as the server lets the sysadmin do that
 			_, err = e.cl.ChangePermission(a, &schema.ChangePermissionRequest{Action: schema.PermissionAction_GRANT, Username: e.user, Database: dbSys, Permission: p})
@@ -826,13 +852,18 @@ func (e *env) acquire() {
 		return
 	}
 	target := map[string]string{"own": dbOwn, "other": dbOther, "system": dbSys, "none": ""}[g.Sel]
+	if g.away() {
+		target = dbOther
+	}
 	bg := context.Background()
 	check := func(full, db string, err error) {
 		ok := err == nil
 		e.acqNotes = append(e.acqNotes, fmt.Sprintf("%s(%q) granted=%v", full[strings.LastIndex(full, "/")+1:], db, ok))
 		c.Eval("")
 		ge := g
-		ge.State = "valid" // the acquisition itself happens before the state transition
+		if !g.away() {
+			ge.State = "valid" // the acquisition itself happens before the state transition
+		}
 		if ok && ge.userLevel(db, e.sysGrant) < lvR {
 			report(e, ge, full, "acquire", "succeeded", fmt.Sprintf("credentials for database %q were granted to user %s whose only rights are: role %s on %s", db, e.user, g.Role, dbOwn), nil)
 		}
@@ -909,6 +940,31 @@ func (e *env) transition() {
 	case "deactivated":
 		_, err := e.cl.SetActiveUser(a, &schema.SetActiveUserRequest{Username: e.user, Active: false})
 		must(err, "deactivate principal")
+	case "revoked-away", "downgraded-away":
+		if e.transitioned {
+			return // (a re-acquired session is a fresh one on dbother)
+		}
+		e.transitioned = true
+		var err error
+		if e.g.State == "revoked-away" {
+			_, err = e.cl.ChangePermission(a, &schema.ChangePermissionRequest{Action: schema.PermissionAction_REVOKE, Username: e.user, Database: dbOwn, Permission: permCode[roleLevel[e.g.Role]]})
+		} else {
+			_, err = e.cl.ChangePermission(a, &schema.ChangePermissionRequest{Action: schema.PermissionAction_GRANT, Username: e.user, Database: dbOwn, Permission: 1})
+		}
+		must(err, "revoke / downgrade principal on dbown")
+		// the session, opened on dbother before the change, now tries to switch to dbown
+		if e.sessID != "" {
+			sctx := metadata.AppendToOutgoingContext(context.Background(), "sessionid", e.sessID)
+			_, err := e.cl.UseDatabase(sctx, &schema.Database{DatabaseName: dbOwn})
+			e.acqNotes = append(e.acqNotes, fmt.Sprintf("UseDatabase(%q) after the change granted=%v", dbOwn, err == nil))
+			c.Eval("")
+			if err == nil {
+				e.sessDB = dbOwn
+				if e.g.userLevel(dbOwn, e.sysGrant) < lvR {
+					report(e, e.g, "/immudb.schema.ImmuService/UseDatabase", "acquire", "succeeded", fmt.Sprintf("session of user %s, opened on %s, selected %s after the user's right on it was revoked", e.user, dbOther, dbOwn), nil)
+				}
+			}
+		}
 	case "revoked":
 		_, err := e.cl.ChangePermission(a, &schema.ChangePermissionRequest{Action: schema.PermissionAction_REVOKE, Username: e.user, Database: dbOwn, Permission: 1})
 		must(err, "revoke principal")
@@ -1079,7 +1135,7 @@ func mayChange(g group, e *env, m *method, v *variant, comp string) bool {
 	if !g.valid() {
 		return false
 	}
-	role := g.maxLevel(e.sysGrant)
+	role := g.curLevel(e)
 	nd := v.need
 	if nd == 0 {
 		nd = m.Need
@@ -1125,7 +1181,7 @@ func forbidden(g group, e *env, m *method, v *variant) bool {
 	if !g.valid() {
 		return true
 	}
-	target := g.maxLevel(e.sysGrant)
+	target := g.curLevel(e)
 	if v.Named {
 		target = g.level(e.named, e.sysGrant)
 	}
@@ -1406,13 +1462,18 @@ func groupsFor(thorough bool) (par []group, serial []group) {
 				if r == "rw" || r == "admin" {
 					add(group{r, s, "downgraded", mech})
 				}
+				if r == "rw" && s == "own" && mech == "session" {
+					add(group{r, s, "revoked-away", mech})
+					add(group{r, s, "downgraded-away", mech})
+				}
 			}
 		}
 	}
 	if !thorough {
 		// a sample of the other session states and of the token mechanism (the full product is the thorough tier)
 		for _, g := range []group{{"rw", "own", "valid", "token"}, {"rw", "own", "expired", "session"}, {"rw", "own", "deactivated", "session"},
-			{"rw", "own", "revoked", "session"}, {"rw", "own", "deactivated", "token"}, {"rw", "own", "deactivated", "token2"}} {
+			{"rw", "own", "revoked", "session"}, {"rw", "own", "deactivated", "token"}, {"rw", "own", "deactivated", "token2"},
+			{"rw", "own", "revoked-away", "session"}, {"rw", "own", "downgraded-away", "session"}} {
 			add(g)
 		}
 	}
